@@ -457,6 +457,18 @@ func genRewrite(r *rand.Rand) logqIn {
 		in.Recs = append(in.Recs, rec)
 	}
 	if r.Intn(3) == 0 {
+		// all records carry the same attributes (the store hands out ONE map for them, as the Docker storage does for the
+		// records of a container): what a stage writes for one record must not show up in the next
+		for i := 1; i < len(in.Recs); i++ {
+			in.Recs[i].Attrs = in.Recs[0].Attrs
+		}
+		for len(in.Recs) < 3 {
+			rec := in.Recs[0]
+			rec.ID, rec.TS = len(in.Recs)+1, []int{1700000001 + len(in.Recs), 0}
+			in.Recs = append(in.Recs, rec)
+		}
+	}
+	if r.Intn(3) == 0 {
 		// twins: the same instant and line under other labels - a drop / keep / rename may make them equal, never one
 		in.Recs = withTwins(r, in.Recs)
 	}
